@@ -368,7 +368,36 @@ func C19(r *core.Run) int {
 			}
 		}
 	}
+	// user directories named like files goag owns: whatever an invocation makes of
+	// them (the unchanged tree refuses to run), what the user keeps inside stays
+	userDirRuns := 0
+	{
+		for _, name := range c19Owned {
+			for vi, inv := range [][]string{{"--client=true"}, {"--client=false"}, {"--client=true", "--api-handler=false"}} {
+				d := filepath.Join(r.Scratch, fmt.Sprintf("userdir-%s-%d", name, vi))
+				_ = os.MkdirAll(filepath.Join(d, name, "drafts"), 0o755)
+				keep := map[string]string{filepath.Join(name, "NOTES.txt"): "mine\n", filepath.Join(name, "drafts", "draft.go"): "package drafts\n"}
+				for f, v := range keep {
+					_ = os.WriteFile(filepath.Join(d, f), []byte(v), 0o644)
+				}
+				sp := filepath.Join(d, "..", fmt.Sprintf("userdir-%s-%d.json", name, vi))
+				_ = os.WriteFile(sp, specs["A"], 0o644)
+				hid := fmt.Sprintf("user-directory/%s/%s", name, strings.Join(inv, " "))
+				out, err := core.RunCmd(r.Scratch, time.Minute, nil, cli, append([]string{"--file", sp, "--out", d, "--package", "gen"}, inv...)...)
+				userDirRuns++
+				cliRuns++
+				for f, v := range keep {
+					if bs, rerr := os.ReadFile(filepath.Join(d, f)); rerr != nil || string(bs) != v {
+						r.Report(core.Violation{Case: hid, Class: "user-file-touched", Message: fmt.Sprintf("%s, kept by the user inside a directory named %s, is gone or changed after an invocation (exit error: %v)", f, name, err), Input: hid, Observed: core.Trunc(out, 300)})
+					}
+				}
+				_ = os.RemoveAll(d)
+				_ = os.Remove(sp)
+			}
+		}
+	}
 	cov := map[string]any{
+		"user_directory_runs": userDirRuns,
 		"dir_mode_histories":  dirHistories,
 		"evaluations":         len(histories),
 		"distinct_nontrivial": len(histories) - len(base),
